@@ -18,9 +18,9 @@ git apply out/patch.diff || { echo "patch does not apply"; exit 2; }
 ( eval "$DEMO_RUN" ) > out/demo_with.log 2>&1; C=$?
 rm -f $DEMO_DIR/zz_seed_demo_test.go
 go build ./... > out/build.log 2>&1; B=$?
-go test -vet=off -count=1 ./... > out/suite.log 2>&1; T=$?
+go test -vet=off -count=1 $(go list ./... | grep -v "/out$") > out/suite.log 2>&1; T=$?
 if [ $T -ne 0 ]; then # re-run once: wall-clock tests in pkg/nack / pkg/twcc flake on a loaded machine
-  go test -vet=off -count=1 ./... > out/suite.log 2>&1; T=$?
+  go test -vet=off -count=1 $(go list ./... | grep -v "/out$") > out/suite.log 2>&1; T=$?
 fi
 echo "demo without change: exit $W (want 0); with change: exit $C (want !=0); build $B; suite $T (want 0)"
 git checkout -q -- .
